@@ -18,6 +18,7 @@ CONSTANTS Cmds,          \* subset of the command alphabet to explore
           MailKinds, RcptKinds, BodyKinds, HookKinds,
           MaxRcpts,      \* set of recipient limits (chosen in Init)
           Depth, Record,
+          OnlyOk,        \* TRUE: only steps that the contract answers positively (valid dialogues)
           StartInTx      \* TRUE: behaviours start inside an open transaction (after EHLO, MAIL)
 
 VARIABLES hist, acked,   \* acked: per mailbox, number of messages the contract says were delivered
@@ -75,6 +76,7 @@ GStep ==
 Gain(m) == Cardinality({i \in DOMAIN rcpts : rcpts[i].store /\ rcpts[i].mbox = m})
 GNext == /\ (Record => Len(hist) < Depth)
          /\ GStep
+         /\ (OnlyOk => reply'.cls = "ok")
          /\ prev' = <<st, from, rcpts, boxes, maxRcpt>>
          /\ acked' = IF st = "DATA" /\ reply'.cls = "ok"
                      THEN [m \in Mailbox |-> acked[m] + Gain(m)] ELSE acked
